@@ -750,7 +750,7 @@ class Rinex212NavParser(ChainParser):
             for v in self.data["time"]:
                 val, val2 = v.split(".")
                 date.append(datetime.strptime(val, "%Y-%m-%dT%H:%M:%S"))
-                millisec.append(timedelta(milliseconds=int(val2)))
+                millisec.append(timedelta(microseconds=int(val2) / 10))  # val2: 7 decimals of the second
 
             # Convert time data entries to Time object
             self.data["time"] = Time(val=date, val2=millisec, scale="gps", fmt="datetime")
